@@ -31,6 +31,10 @@ def _conv():
     if _CONV is None:
         from lsprotocol import converters
 
+        from .xhrt import foreign_history
+
+        foreign_history()
+
         _CONV = converters.get_converter()
     return _CONV
 
